@@ -405,7 +405,7 @@ def shards(tier, seed):
         out.append((f"corrupt{part}", "shard_corrupt", {"part": part, "nparts": nparts}))
     nr = 8
     for i in range(nr):
-        out.append((f"random{i}", "shard_random", {"max_examples": 6000 if big else 250}))
+        out.append((f"random{i}", "shard_random", {"max_examples": 20000 if big else 250}))
     return out
 
 
